@@ -1015,6 +1015,7 @@ class CodeGenerator(StructuredCodeGenerator):
         self.emitters = [self.module_emitter]
 
         self.current_function = None
+        self.loop_nesting_depth = 0
         self.used = False
 
     # }}}
@@ -2114,6 +2115,7 @@ class CodeGenerator(StructuredCodeGenerator):
         self.emitter.emit_else()  # pylint:disable=no-member
 
     def emit_for_begin(self, loop_var_name, lbound, ubound):
+        self.loop_nesting_depth += 1
         em = FortranDoEmitter(
                 self.emitter,
                 self.name_manager[loop_var_name],
@@ -2124,6 +2126,7 @@ class CodeGenerator(StructuredCodeGenerator):
         em.__enter__()
 
     def emit_for_end(self, loop_var_name):
+        self.loop_nesting_depth -= 1
         self.emitter.__exit__(None, None, None)
 
     def emit_assign_expr(self, assignee_sym, assignee_subscript, expr):
@@ -2317,6 +2320,11 @@ class CodeGenerator(StructuredCodeGenerator):
         :attr:`current_function`. If so, emit code to deallocate that variable.
         """
         from dagrt.utils import is_state_variable
+
+        if self.loop_nesting_depth:
+            # The statement runs again in the next trip of the loop, this
+            # is not the last use. (The exit label releases the variables.)
+            return
 
         read_and_written = inst.get_read_variables() | inst.get_written_variables()
 
